@@ -939,9 +939,12 @@ func c01MakeEdits(b *c01Base) {
 	if b.status == 404 {
 		other = 200
 	}
-	for k, st := range []int{b.status + 1, other, 0, b.status / 10, b.status * 10, -b.status} {
+	// (values congruent to the signed status modulo 1000 / 256 / 65536 / 2^32: a serializer that formats three digits or
+	// narrows the integer signs the same bytes for them)
+	for k, st := range []int{b.status + 1, other, b.status + 1000, 0, b.status / 10, b.status * 10, -b.status, b.status + 2000, b.status + 10000, b.status + 91000,
+		b.status + 100, b.status + 256, b.status + 65536, b.status + 1<<32, b.status - 1000} {
 		st := st
-		add(fmt.Sprintf("status -> %d", st), "status", k < 2, func(s *c01State) { s.status = st })
+		add(fmt.Sprintf("status -> %d", st), "status", k < 3, func(s *c01State) { s.status = st })
 	}
 	// --- headers
 	hdr := func(which string, base http.Header, sel func(s *c01State) *http.Header) {
